@@ -288,6 +288,8 @@ def spec_reflection_across(draw, n, shape, dmax):
     d = dict(ctor="reflection_across", n=n, shape=shape, via=via,
              normals=draw(_normals(n, cnt, min(dmax, 1.8))))
     if via == "subspace":
+        if cnt and draw(st.integers(0, 3)) == 0:      # a wall through the origin
+            d["normals"][0] = {"a": 0.0, "d": draw(sdir(n)), "s": 1.0}
         # ideal basis = (1, 0, simplex vertex rotated by Q) carried by rot(O) . boost
         d["Q"] = [draw(gen.orthogonal_matrix(n - 1)) for _ in range(cnt)]
         d["bscales"] = [[draw(st.one_of(st.just(1.0), fl(0.5, 2.0))) for _ in range(n)]
@@ -624,10 +626,7 @@ def build(spec):
             return Built(T, n, shape, ctor, cond=worst, labels=lab)
         ib, worst = ideal_basis_of(spec, n, shape)
         if any(abs(nparts(e)[1]) < 1e-15 for e in spec["normals"]):
-            b = Built(None, n, shape, ctor, labels=lab)
-            b.excluded = "C02-subspace-reflection-through-origin"
-            b.payload = ib
-            return b
+            lab.append("subspace-through-origin")
         T = Subspace(ib.copy()).reflection_across()
         return Built(T, n, shape, ctor, cond=worst, labels=lab)
     if ctor == "coxeter_hyperbolic_rep":
